@@ -161,7 +161,20 @@ def rule_final(R):
     clause_remove_then_report(R, "final", arms=("PubComp", "PubRec"))
 
 
+def rule_reason(R):
+    """a PUBREC carrying a failure code ends the exchange without PUBREL: which codes are failures is ReasonCode::success / failed (MQTT 5 2.4: below 0x80) -- shared clause"""
+    roles.clause_reason_predicates(R, "reason")
+
+
+def rule_shared_sent(R):
+    """a PUBREL whose flush completed is marked sent in the release queue -- C02's rule"""
+    from .c02 import rule_sent as _r
+    _r(R)
+
+
 def run(R):
+    R.rule("sent", rule_shared_sent)
+    R.rule("reason", rule_reason)
     R.rule("final", rule_final)
     R.rule("rel", rule_rel)
     R.rule("comp", rule_comp)
